@@ -332,6 +332,11 @@ fn replay_case(case: &Value, c: &C, mode: &str, flip_limits: bool) -> Bad {
             "max" => Time(i64::MAX),
             _ => Time(i(q, "h") * (c.tick_ns() / 2) + i(q, "e")),
         };
+        // C07 is quantified over the query times in [0, t3]: what the accessors do before the start, after completion and at the i64
+        // extremes is C06's business
+        if mode == "c07" && (s(q, "tag") != "" || i(q, "h") < 0 || i(q, "h") > 2 * i(mv, "t3") || (i(q, "h") == 2 * i(mv, "t3") && i(q, "e") > 0)) {
+            continue;
+        }
         let o = match observe(&p, t) {
             Ok(o) => o,
             Err(m) => return Some(("accessor_panic".into(), format!("an accessor panicked at t = {} ns", t.0), q.clone(), json!(m))),
